@@ -223,9 +223,12 @@ def run(ctx):
                     notes_small += 1
                 b = 1 if blum else 0
                 tr = ','.join(map(str, trues)) if trues else '-'
-                lines.append(f'fpr_o {FUEL} {l} {b} {n} {tr}')
-                impl.append(canon(out))
-                meta.append(('fpr_o', l, blum, n))
+                if not msg:
+                    # replay of the primality answers: only for outcomes the oracle accepted (with a wrong outcome the
+                    # model may search astronomically long for a number the real run never asked about)
+                    lines.append(f'fpr_o {FUEL} {l} {b} {n} {tr}')
+                    impl.append(canon(out))
+                    meta.append(('fpr_o', l, blum, n))
                 if l <= 96 or (l % 16 == 0 and n in (2, 3, 257)):
                     lines.append(f'fpr {FUEL} {l} {b} {n}')
                     impl.append(canon(out))
@@ -285,7 +288,12 @@ def run(ctx):
                               {'function': 'SecInt' if f is None else 'SecFxp', 'args': [l, f], 'observed': canon(out),
                                'expected': msg})
     ctx.sample({'SecInt(32).field.modulus': int(mpc.SecInt(32).field.modulus), 'sec_param': k})
-    model = DRIVER.run(lines) if len(lines) < 30000 else _run_chunks(lines, 4)
+    try:
+        model = DRIVER.run(lines, timeout=900) if len(lines) < 30000 else _run_chunks(lines, 4)
+    except common.InfraError as exc:
+        ctx.mismatch(f'Lean driver did not answer in time ({exc}): the model searches much longer than the code did',
+                     {'kind': 'correspondence', 'what': 'driver timeout', 'lines': len(lines)})
+        return
     ctx.compare('finfields.find_prime_root / sectypes._pfield vs Lean PrimeRoot model', impl, model, meta)
 
 
